@@ -352,7 +352,8 @@ func TestC12Close(t *testing.T) {
 	rapid.Check(t, func(rt *rapid.T) {
 		c := genC12(rt)
 		rec.Current("close", c)
-		vnet.FreezeHook = closeHangHook(rec, "close", c)
+		closeHook, lockHook := closeHangHook(rec, "close", c), mutexDeadlockHook(rec, "close", c, "Close cannot complete")
+		vnet.FreezeHook = func(st string) { closeHook(st); lockHook(st) }
 		r := runC12(t, c)
 		rec.Case(r.nontrivial, fmt.Sprintf("%s|%+v|%s|%d", scKey(c.Sc), c.Closes, c.Transport, c.SilenceMs), r.labels...)
 		if r.nontrivial && rec.WantSample() {
